@@ -4,6 +4,7 @@ From JV Require Import Model.Base Model.GoTime Gen.TypeGo Model.Schema Model.Val
 Definition cstep (c : scoll) (o : cop) : res scoll :=
   match o with
   | CAdd r0 ops => bind (bind r0 (fun r => apply_sets r ops)) (fun r => sc_add c r)
+  | CAddOwn ops => bind (apply_sets (RSoft (soft_new (sc_type c))) ops) (fun r => sc_add c r)
   | CRemove id => Ok (sc_remove c id)
   | CSetType t => Ok (sc_set_type c t)
   | CAddAttr a => Ok (snd (sc_add_attr c a))
